@@ -29,8 +29,8 @@ import (
 type ingRecorder struct {
 	readers []fileformat.FormatReader // the real readers created so far (C12: asked again after the transform ended)
 	events  []interface{}
-	tr     int
-	ids    map[int64]int // node ID -> dense number inside the trace
+	tr      int
+	ids     map[int64]int // node ID -> dense number inside the trace
 }
 
 func (r *ingRecorder) add(ev M) {
